@@ -238,3 +238,6 @@ def run(cx):
         ob.count(sum(x.evals for x in w))
         bad = [v for x in w for v in x.violations]
         ob.require(len(w) == 1 and not bad, "detached-handler/no-spawn-on-request-path", "a task is spawned outside the sets that cancellation / shutdown reach (dropping the request future no longer drops the handler): " + "; ".join(str(v.msg) for v in bad)[:300], "anemo::rpc::server::Rpc::unary")
+
+    with cx.ob("C12.8", "R-SHAPE", "one layer out: closed world of destructors (the only per-request destructor is the stream wrapper's reset)") as ob:
+        check_drop_impls_closed(ob, prog, ["anemo::connection::SendStream", "anemo::network::connection_manager::ConnectionManager"])
